@@ -3,7 +3,7 @@
 import json, os, shutil, sys
 pid, m, caught = sys.argv[1:4]
 note = sys.argv[4] if len(sys.argv) > 4 else ""
-src = "/tmp/mut/%s/out/%s" % (pid, m)
+src = "/tmp/mutout/%s/%s" % (pid, m)
 dst = "/verif/seeded/%s-%s" % (pid, m)
 os.makedirs(dst, exist_ok=True)
 shutil.copy(src + "/patch.diff", dst + "/patch.diff")
